@@ -847,16 +847,19 @@ fn window_scenarios(rep: &mut Report, prop: &str, args: &Args, rounds: u64) {
 /// (unbounded: all), and nothing may surface from the wrapped sink.
 fn blocked_case(rep: &mut Report, prop: &str, args: &Args, cs: u64) {
     let mut rng = Rng::new(cs);
-    let cap = match rng.below(8) {
-        0 => None,
-        1 => Some(1usize),
-        2 => Some(2),
-        3 => Some(3),
+    let cap = match rng.below(16) {
+        0 | 1 => None,
+        2 => Some(1usize),
+        3 => Some(2),
+        4 => Some(3),
+        // capacities around the limits of 8- and 16-bit counters
+        5 => Some(*rng.pick(&[255usize, 256, 257, 1000])),
+        6 if rng.chance(1, 4) => Some(*rng.pick(&[65535usize, 65536, 65537])),
         _ => Some(rng.range(1, 12) as usize),
     };
     let producers = *rng.pick(&[2usize, 2, 3, 4, 8, 16]);
-    let per = rng.range(1, 6) as usize + cap.unwrap_or(4) / producers;
-    let big = rng.chance(1, 3); // large metrics widen the window between a room check and the send
+    let per = rng.range(1, 6) as usize + cap.unwrap_or(4) / producers + 1;
+    let big = rng.chance(1, 3) && cap.map(|c| c < 64).unwrap_or(true); // large metrics widen the window between a room check and the send
     rep.eval();
     let sh = Shared::new(true);
     set_current(None);
